@@ -44,26 +44,21 @@ META = {
 
 
 def run(ctx, rep):
-    encf = ctx.api("encoder")
-    frag = None
     import re as _re
     shape = _re.compile(r"^\[\{\}[A-Za-z]+\{\}\]$")
-    for q in ctx.cg.region(encf):
-        g = ctx.db.funcs[q]
-        if g.module.name == encf.module.name and sum(1 for _, t, _ in format_templates(ctx, g) if shape.match(t)) >= 2:
-            frag = g
-    if frag is None:
-        raise AnalysisError("ring token template not found in the encoder")
+    from rules.shared import fragment_printer, token_templates
+    encf, frag = fragment_printer(ctx)
     ring_tab = ctx.fold.global_value("selfies.grammar_rules", "_PROCESS_RING_CACHE")
     ring_call = None
-    for node, tmpl, args in format_templates(ctx, frag):
-        if shape.match(tmpl) and tmpl.replace("{}", "1") in {k.replace("=", "") for k in ring_tab} | {"[1Ring1]"} or "Ring" in tmpl:
-            if shape.match(tmpl) and isinstance(args[0], ast.Call) and len(args[0].args) == 2:
-                ring_call = (node, tmpl, args[0])
+    owner = frag
+    for own, node, tmpl, args in token_templates(ctx, frag):
+        if shape.match(tmpl) and "Ring" in tmpl and isinstance(args[0], ast.Call) and len(args[0].args) == 2:
+            ring_call = (node, tmpl, args[0])
+            owner = own
     if ring_call is None:
         raise AnalysisError("ring prefix call with two directed bonds not found")
     node, tmpl, pcall = ring_call
-    site = {id(s.node): s for s in ctx.cg.sites(frag)}.get(id(pcall))
+    site = {id(s.node): s for s in ctx.cg.sites(owner)}.get(id(pcall))
     if site is None or len(site.callees) != 1:
         raise AnalysisError("ring prefix function not resolved")
     P = site.callees[0]
@@ -155,7 +150,7 @@ def run(ctx, rep):
     if not isinstance(a1, ast.Name) or not isinstance(a0, ast.Name):
         probs.append("prefix arguments are not two local bonds")
     else:
-        defs = [n for n in own_nodes(frag.node) if isinstance(n, ast.Assign) and isinstance(n.targets[0], ast.Name) and n.targets[0].id == a0.id]
+        defs = [n for n in own_nodes(owner.node) if isinstance(n, ast.Assign) and isinstance(n.targets[0], ast.Name) and n.targets[0].id == a0.id]
         okdef = False
         for d in defs:
             c = d.value
@@ -169,7 +164,20 @@ def run(ctx, rep):
         if not okdef:
             probs.append("first prefix argument is not the reverse of the second (get_dirbond(src=b.dst, dst=b.src))")
         # guard: b.src < b.dst -> skipped (so b.src > b.dst here: the reverse bond starts at the lower index)
-        guards = [n for n in own_nodes(frag.node) if isinstance(n, ast.If) and unparse(n.test).replace(" ", "") == "%s.src<%s.dst" % (a1.id, a1.id)
+        bname = a1.id
+        if owner is not frag and bname in owner.params:
+            # the ring bond is a parameter of a helper: the guard is around the helper's call in the fragment printer
+            actual = set()
+            for s_ in ctx.cg.sites(frag):
+                if owner in s_.callees and isinstance(s_.node, ast.Call):
+                    pos = owner.posparams
+                    if bname in pos and pos.index(bname) < len(s_.node.args) and isinstance(s_.node.args[pos.index(bname)], ast.Name):
+                        actual.add(s_.node.args[pos.index(bname)].id)
+                    for kw in s_.node.keywords:
+                        if kw.arg == bname and isinstance(kw.value, ast.Name):
+                            actual.add(kw.value.id)
+            bname = actual.pop() if len(actual) == 1 else bname
+        guards = [n for n in own_nodes(frag.node) if isinstance(n, ast.If) and unparse(n.test).replace(" ", "") == "%s.src<%s.dst" % (bname, bname)
                   and any(isinstance(x, ast.Continue) for x in n.body)]
         if not guards:
             probs.append("the ring symbol is not restricted to the closing end (b.src > b.dst): orientation of the marks is undetermined")
